@@ -599,8 +599,8 @@ class Interp(Engine):
     def eval_Dict(self, st, node):
         if not node.keys:
             return SV(KConst, None, const=EmptyLit("dict"))
-        out = None
-        pend = []
+        # evaluate in source order, then build: later entries override earlier ones
+        items = []
         for kn, vn in zip(node.keys, node.values):
             if kn is None:
                 src = self.eval(st, vn)
@@ -610,30 +610,32 @@ class Interp(Engine):
                     continue
                 if not isinstance(src.kind, KDict):
                     raise Unsupported("** of %s" % src.kind)
-                if out is None:
-                    out = self.copy_dict(st, src)
-                    for k, v in pend:
-                        self.dict_set(st, out, self.coerce(st, k, out.kind.k), v, node)
-                    pend = []
-                else:
-                    self.dict_update(st, out, src, node)
+                items.append(("**", src, None))
             else:
-                k, v = self.eval(st, kn), self.eval(st, vn)
-                if out is None:
-                    pend.append((k, v))
-                else:
-                    self.dict_set(st, out, self.coerce(st, k, out.kind.k, node), v, node)
-        if out is None:
-            kk = pend[0][0].kind
-            vk = pend[0][1].kind
-            for _, v in pend[1:]:
+                items.append(("kv", self.eval(st, kn), self.eval(st, vn)))
+        stars = [it for it in items if it[0] == "**"]
+        if stars:
+            kind = stars[0][1].kind
+        else:
+            kvs = [it for it in items if it[0] == "kv"]
+            kk = kvs[0][1].kind
+            vk = kvs[0][2].kind
+            for _, _, v in kvs[1:]:
                 if v.kind != vk:
                     vk = KVal
             if vk is KConst or vk is KNone or isinstance(vk, (KOpt, KTuple)):
                 vk = KVal
-            out = self.new_dict(st, KDict(kk, vk))
-            for k, v in pend:
-                self.dict_set(st, out, self.coerce(st, k, kk, node), v, node)
+            kind = KDict(kk, vk)
+        if items and items[0][0] == "**":
+            out = self.copy_dict(st, items[0][1])
+            items = items[1:]
+        else:
+            out = self.new_dict(st, kind)
+        for tag, a, b in items:
+            if tag == "**":
+                self.dict_update(st, out, a, node)
+            else:
+                self.dict_set(st, out, self.coerce(st, a, out.kind.k, node), b, node)
         return out
 
     def dict_update(self, st, dst: SV, src: SV, node=None):
@@ -759,7 +761,7 @@ class Interp(Engine):
         fn = node.func
         if isinstance(fn, ast.Name):
             nm = fn.id
-            if nm in ("old", "forall", "exists", "implies", "fresh", "iff", "nondet") and (self.spec_mode or nm in ("implies",)):
+            if nm in ("old", "forall", "exists", "implies", "fresh", "iff", "nondet", "only_fresh_modified") and (self.spec_mode or nm in ("implies",)):
                 return self.spec_builtin(st, nm, node)
         if isinstance(fn, ast.Name) and fn.id == "cast" and len(node.args) == 2:
             return self.eval(st, node.args[1])     # typing.cast: identity, the type is not evaluated
@@ -1034,6 +1036,18 @@ class Interp(Engine):
             finally:
                 fr.env = saved
             return SV(KBool, z3.ForAll(vs, body) if nm == "forall" else z3.Exists(vs, body))
+        if nm == "only_fresh_modified":
+            # frame: in every heap array that differs from the pre-state, objects allocated before the
+            # call are unchanged (the callee only initialises objects it allocated itself)
+            ctx = self.spec_stack[-1]
+            conj = []
+            r = z3.Int("ofm_r")
+            for name, arr in st.heap.items():
+                a0 = ctx.pre_heap.get(name)
+                if a0 is None or z3.eq(a0, arr) or name.startswith("G:"):
+                    continue
+                conj.append(qforall([r], z3.Implies(z3.And(0 <= r, r < ctx.pre_nref), arr[r] == a0[r]), patterns=[arr[r]]))
+            return SV(KBool, z3.And(conj) if conj else z3.BoolVal(True))
         if nm == "nondet":
             return SV(KBool, st.fresh("nondet", z3.BoolSort()))
         if nm == "fresh":
